@@ -137,6 +137,12 @@ func c21Enum(c *mc.Ctx, yield func(c21Spec)) {
 		for _, kind := range []string{"tick", "candle"} {
 			c21Seqs(c, func(r []int) { yield(c21Spec{tf, kind, r}) })
 		}
+		// tick input whose price is the mean of two columns (Bid, Ask), with Sum/Avg over the first of them
+		c21Seqs(c, func(r []int) {
+			if len(r) <= 2 {
+				yield(c21Spec{tf, "tick2", r})
+			}
+		})
 	}
 }
 
@@ -144,6 +150,7 @@ type c21Row struct {
 	t          time.Time
 	o, h, l, c float32
 	vol        float32
+	bid, ask   float32 // tick2 input: the price is their mean
 }
 
 func c21Rows(tf string, syms []int, kind string) []c21Row {
@@ -152,7 +159,14 @@ func c21Rows(tf string, syms []int, kind string) []c21Row {
 	for i, s := range syms {
 		p := c21Prices[s%8]
 		r := c21Row{t: g[s/8], vol: float32(i + 1)}
-		if kind == "tick" {
+		if kind == "tick2" {
+			if p > 1e30 {
+				p = 1e6 // Bid+Ask would overflow float32
+			}
+			r.o, r.h, r.l, r.c = p, p, p, p
+			r.bid, r.ask = p-1, p+1 // price = (Bid + Ask) / 2
+			r.vol = r.bid           // Sum:: and Avg:: run over Bid
+		} else if kind == "tick" {
 			r.o, r.h, r.l, r.c = p, p, p, p
 		} else {
 			r.o, r.h, r.l, r.c = p, p+2, p-2, p+1
@@ -170,6 +184,15 @@ func c21CS(rows []c21Row, kind string) *io.ColumnSeries {
 		ep[i], o[i], h[i], l[i], cl[i], v[i] = r.t.Unix(), r.o, r.h, r.l, r.c, r.vol
 	}
 	cs.AddColumn("Epoch", ep)
+	if kind == "tick2" {
+		bid, ask := make([]float32, len(rows)), make([]float32, len(rows))
+		for i, r := range rows {
+			bid[i], ask[i] = r.bid, r.ask
+		}
+		cs.AddColumn("Bid", bid)
+		cs.AddColumn("Ask", ask)
+		return cs
+	}
 	if kind == "tick" {
 		cs.AddColumn("Price", o)
 	} else {
@@ -244,6 +267,9 @@ func in32(v float32, set []float32) bool {
 }
 
 func c21Call(kind, tf string) string {
+	if kind == "tick2" {
+		return "tickcandler('" + tf + "',CandlePrice::Bid,CandlePrice::Ask,Sum::Bid,Avg::Bid)"
+	}
 	if kind == "tick" {
 		return "tickcandler('" + tf + "',Price,Sum::Vol,Avg::Vol)"
 	}
@@ -306,8 +332,12 @@ func c21Run(c *mc.Ctx, s c21Spec) {
 	h, _ := out.GetColumn("High").([]float32)
 	l, _ := out.GetColumn("Low").([]float32)
 	cl, _ := out.GetColumn("Close").([]float32)
-	sum, _ := out.GetColumn("Vol_SUM").([]float64)
-	avg, _ := out.GetColumn("Vol_AVG").([]float64)
+	sumCol := "Vol"
+	if s.Kind == "tick2" {
+		sumCol = "Bid"
+	}
+	sum, _ := out.GetColumn(sumCol + "_SUM").([]float64)
+	avg, _ := out.GetColumn(sumCol + "_AVG").([]float64)
 	desc := func() string {
 		var sb strings.Builder
 		for _, r := range rows {
